@@ -245,7 +245,7 @@ def check_synth(oi, old, new):
 
 
 N = count(SLOTS)
-NSTEP = 7 if rt.TIER == "quick" else 29
+NSTEP = 11 if rt.TIER == "quick" else 29
 NNEW = (N + NSTEP - 1) // NSTEP
 NS = len(ORDERS) * N * NNEW
 SLO, SHI = rt.shard_range(NS)
